@@ -16,6 +16,12 @@ CLAIMED = {
     "C13": ("opcode-soup grammar, exhaustive single-byte mutation neighbourhoods of small dumps, atheris coverage-guided fuzzing; audit-hook side-effect oracle",
             "Generated and exhaustively mutated byte strings are fed to loads under an oracle that accepts only a value of supported builtin types, DataFormatError or EOFError, forbids any audit event that would mean code execution or I/O, requires termination, and requires every strict prefix of a valid dump to fail. Mutation neighbourhoods are complete per seed; everything else is sampled or coverage-guided.",
             "Inputs with NEWLIST counts > 65536 are excluded and counted (known allocation finding, confirmed per run in a memory-limited child). atheris needs /opt/veriftools/pyvenv.", "3/C13"),
+    "C19": ("model-based testing against io.StringIO/io.BytesIO over generated item splits and read/readline call sequences; wire parsed with the reference frame codec for the writer",
+            "Generated-input search with the standard library's in-memory files as reference model: every generated sequence of read(n)/readline() on a channel file over every generated split (incl. empty items, text and bytes, prefilled or fed concurrently) must return what the model returns call by call and emptiness afterwards; writer sequences must put exactly one DATA frame per write on the wire, refuse writes after close with OSError and close the channel iff proxyclose.",
+            "Sampling. '\\n' is the only line terminator of the model. Real threads in feeder mode (results compared, schedule not owned).", "3/C19"),
+    "C20": ("reference-parser differential over a generated spec grammar; duplicate-key generator; model-based histories over a real Group",
+            "Generated-input search: generated key/value lists are rendered to spec text and parsed by XSpec and by a 20-line reference parser (attributes, env mapping, None for absent names, str round-trip, equality/hash by text, ValueError for any repeated key); generated histories of makegateway(auto/explicit colliding ids)/exit/terminate on a real group are checked against a list model after every step.",
+            "Sampling. The reference parser is the specification of the syntax. Concurrent allocate_id schedules are part of the scheduler-based checks (added with engine E3).", "3/C20"),
 }
 
 NOT_APPLICABLE = {}
